@@ -35,7 +35,8 @@ PROPS = {
     "C15": {
         "props_files": ["C15"],
         "theorems": ["C15_clean_accepted", "C15_crc_affine", "C15_single_bit", "C15_double_bit_window", "C15_burst16",
-                     "C15_odd_weight", "C15_frame_delimited_by_header", "C15_corrupt_rejected"],
+                     "C15_odd_weight", "C15_frame_delimited_by_header", "C15_corrupt_rejected",
+                     "C15_model_check_rejects", "C15_model_check_clean"],
         "components": ["crc"],
         "rule": "cases = (a) CRC values: 7 fixed vectors, seeded random messages of length 0..300 (all-zero / all-ones / boundary-octet / "
                 "random contents), all 65536 two-octet messages, (state, octet) pairs through 3-octet messages (96 x 256 quick, all "
@@ -45,12 +46,14 @@ PROPS = {
                 "file-size flags; entity-id widths 1/2/4/8; plus a 40-option Metadata and a 30-request NAK) three cases: every "
                 "single-bit flip at every bit >= 32, every pair of flips within a 40-bit window, burst patterns of <= 16 bits "
                 "(exhaustive up to a length that depends on the frame size, seeded sample above it; long frames sampled in the quick "
-                "tier); non-trivial = at least 2 ops; distinct = distinct op-list text",
+                "tier), the same errors with other octets following the frame in the same arrival, and the same PDU without the "
+                "CRC (frame delimitation only); non-trivial = at least 2 ops; distinct = distinct op-list text",
         "explanation": "Theorems over Model/Crc.v (the octet-wise CRC-16 routine of pdu.rs, over N with the u16 masks written out) for "
                        "messages and error patterns of every length; the finite parts (2^16 register states, 2^16 sixteen-bit words, "
                        "one orbit of 32766 shifts) are vm_compute sweeps lifted by forallb_forall with the bound in the statement. "
                        "The model is tied to pdu.rs by differential execution: verif_crc16 vs the extracted crc16, and real "
-                       "PDU::decode on corrupted real encodings vs the extracted crc_frame_ok on the same octets; an oracle independent "
+                       "PDU::decode on corrupted real encodings vs the extracted receiver_frame_check (frame_span from the header, "
+                       "then crc_frame_ok) on the same octets, and the number of octets consumed vs receiver_consumed; an oracle independent "
                        "of the model (bit-serial reference CRC; 'decoded PDU differs from the original' / 'unaltered encoding not "
                        "accepted') evaluates the property itself on the implementation's outputs.",
         "level_text": "Full proof on the model, for frames and error patterns of unbounded length: an unaltered frame passes the receiver's "
